@@ -14,18 +14,32 @@ import numpy as np
 from harness import alpha, core, gamma, lattice, shims, tlc, util
 
 INV = ["PlateIsCover", "NoUninit", "PoolOK", "Emit"]
-FIELDSETS = [["u"], ["w", "u"], ["all"], ["grid_level"], ["v", "grid_level"]]
 SENTINEL = 1.2345e300
 
 
+FEW = '{<<1>>, <<3, 1>>, <<99>>, <<0>>, <<2, 0>>}'
+PERMS4 = ("{<<1>>, <<99>>, <<0, 3>>} \\cup {s \\in [1..4 -> 1..4] : \\A i, j \\in 1..4 : i # j => s[i] # s[j]} "
+          "\\cup {s \\in [1..3 -> 0..4] : TRUE} \\cup {<<2, 0, 4, 3, 1>>, <<5, 4, 3, 2, 1>>, <<1, 5>>}")
+ALL4 = PERMS4 + " \\cup [1..4 -> 1..4]"
+NAMES = ["f1", "f2", "f3", "f4", "f5"]
+
+
 def models(tier):
-    def cfg(**c):
+    def cfg(flists, **c):
         base = dict(W=2)
         base.update(c)
-        return {"INIT": "Init", "NEXT": "Next", "CONSTANTS": base, "INVARIANTS": INV}
+        return {"INIT": "Init", "NEXT": "Next", "DEFS": {"FieldLists": flists}, "CONSTANTS": base, "INVARIANTS": INV}
     if tier == "quick":
-        return [("2 levels", cfg(N1=3, N2=2, MaxLev=2, MaxFine=2)), ("3 levels", cfg(N1=2, N2=1, MaxLev=3, MaxFine=1))]
-    return [("2 levels", cfg(N1=4, N2=2, MaxLev=2, MaxFine=2)), ("3 levels", cfg(N1=2, N2=2, MaxLev=3, MaxFine=2))]
+        return [("2 levels", cfg(FEW, N1=3, N2=2, MaxLev=2, MaxFine=2)), ("3 levels", cfg(FEW, N1=2, N2=1, MaxLev=3, MaxFine=1)),
+                ("field lists (all permutations of 4, all triples incl. grid_level and repeats)", cfg(PERMS4, N1=2, N2=1, MaxLev=2, MaxFine=1))]
+    return [("2 levels", cfg(FEW, N1=4, N2=2, MaxLev=2, MaxFine=2)), ("3 levels", cfg(FEW, N1=2, N2=2, MaxLev=3, MaxFine=2)),
+            ("field lists (every sequence of 4)", cfg(ALL4, N1=2, N2=1, MaxLev=2, MaxFine=1))]
+
+
+def names_of(flist):
+    if flist == [99]:
+        return ["all"]
+    return ["grid_level" if f == 0 else NAMES[f - 1] for f in flist]
 
 
 def run_scenario(chk, sc, cfgseed, fields, axes):
@@ -33,7 +47,7 @@ def run_scenario(chk, sc, cfgseed, fields, axes):
     rng = random.Random(cfgseed)
     cfg_ = gamma.Config.draw(rng, ndims=2, payload="tame")
     lat = lattice.Lattice(sc["mesh"], sc["n1"], sc["n2"], axes=axes, ndims=2, scale=3)
-    ap = lat.ap("A", ["u", "v", "w"], files_of=lambda lv, b: rng.randint(1, 2),
+    ap = lat.ap("A", NAMES, files_of=lambda lv, b: rng.randint(1, 2),
                 shuffle=lambda lv, f, v: rng.sample(v, len(v)))
     flds = lattice.Fields(lat, cfgseed, payload="wild" if cfgseed % 2 else "tame")
     d = chk.tmp()
@@ -59,7 +73,7 @@ def run_scenario(chk, sc, cfgseed, fields, axes):
         got = np.asarray(out.get(name))
         if got.shape != want.shape or not np.allclose(got, want, rtol=1e-12, atol=1e-12 * abs(dx[ax])):
             return "coordinate grid %s = %r, cell centres are %r" % (name, got, want)
-    names = ["u", "v", "w"] if fields == ["all"] else [f for f in fields if f != "grid_level"]
+    names = list(NAMES) if fields == ["all"] else [f for f in fields if f != "grid_level"]
     want_grid = fields == ["all"] or "grid_level" in fields
     E = sc["expect"]
 
@@ -127,7 +141,7 @@ def run(chk, replay):
     chosen = util.select(scenarios, cap, chk.rng)
     chk.exhaustive = len(chosen) == len(scenarios)
     for i, sc in enumerate(chosen):
-        fields = FIELDSETS[i % len(FIELDSETS)]
+        fields = names_of(sc["flist"])
         axes = (0, 1) if (i // 5) % 2 == 0 else (1, 0)
         cfgseed = chk.rng.randrange(1 << 30)
         v = run_scenario(chk, sc, cfgseed, fields, axes)
